@@ -785,13 +785,12 @@ func (l *undirectedMultiplexLocalMover) deltaQ(n graph.Node) (deltaQ float64, ds
 			for j, u := range c {
 				uid := u.ID()
 				if uid == id {
-					// Only mark and check src community on the first layer.
-					if layer == 0 {
-						if src.community != -1 {
-							panic("community: multiple sources")
-						}
-						src = commIdx{i, j}
+					// Mark the src community; the node must be found
+					// in the same place in every layer.
+					if src.community != -1 && src != (commIdx{i, j}) {
+						panic("community: multiple sources")
 					}
+					src = commIdx{i, j}
 					removal = true
 				}
 
